@@ -414,9 +414,14 @@ func (s *configurationStore) Watch(ctx context.Context, ch chan<- configapi.Conf
 						log.Error(err)
 						return
 					}
-					ch <- configapi.ConfigurationEvent{
+					select {
+					case ch <- configapi.ConfigurationEvent{
 						Type:          configapi.ConfigurationEvent_REPLAYED,
 						Configuration: *configuration,
+					}:
+					case <-ctx.Done():
+						close(ch)
+						return
 					}
 				}
 			} else {
@@ -445,9 +450,14 @@ func (s *configurationStore) Watch(ctx context.Context, ch chan<- configapi.Conf
 						log.Error(err)
 						return
 					}
-					ch <- configapi.ConfigurationEvent{
+					select {
+					case ch <- configapi.ConfigurationEvent{
 						Type:          configapi.ConfigurationEvent_REPLAYED,
 						Configuration: *configuration,
+					}:
+					case <-ctx.Done():
+						close(ch)
+						return
 					}
 				}
 			}
@@ -456,7 +466,16 @@ func (s *configurationStore) Watch(ctx context.Context, ch chan<- configapi.Conf
 		for {
 			select {
 			case event := <-eventCh:
-				ch <- event
+				select {
+				case ch <- event:
+				case <-ctx.Done():
+					close(ch)
+					go func() {
+						for range eventCh {
+						}
+					}()
+					return
+				}
 			case <-ctx.Done():
 				close(ch)
 				go func() {
